@@ -129,59 +129,68 @@ inductive StepRes (σ : Type) where
   /-- `run_inner` returns `Err` (a failed install send) -/
   | fail (st : St σ) (evs : List Ev)
 
+/-- replace the flow map of `addr` -/
+def setAddr {σ : Type} (flows : List (Addr × List (Nat × Flow σ))) (addr : Addr) (fm : List (Nat × Flow σ)) :
+    List (Addr × List (Nat × Flow σ)) :=
+  (addr, fm) :: flows.filter (fun p => p.1 ≠ addr)
+
+/-- `Msg::Rdy`: forget (drop) the flows of that address, then install every program -/
+def stepRdy {σ : Type} (cfg : Cfg) (st : St σ) (addr : Addr) : StepRes σ :=
+  let old := (st.flows.lookup addr).getD []
+  let r := sendInstalls addr cfg.progs st.sendFail (dropAll old)
+  let st' := { st with flows := setAddr st.flows addr [], sendFail := r.2.1 }
+  if r.1 then .cont st' r.2.2 else .fail st' r.2.2
+
+/-- `Msg::Cr` -/
+def stepCr {σ : Type} (cfg : Cfg) (pol : Policy σ) (st : St σ) (addr : Addr) (c : Create) : Out (StepRes σ) :=
+  let known := (st.flows.lookup addr).isSome
+  let fm := (st.flows.lookup addr).getD []
+  let r := if known then (true, st.sendFail, []) else sendInstalls addr cfg.progs st.sendFail []
+  if !r.1 then
+    .ok (.fail { st with flows := setAddr st.flows addr fm, sendFail := r.2.1 } r.2.2)
+  else
+    let evs := r.2.2 ++ dropAll (fm.filter fun p => p.1 = c.sid)
+    let fm := fm.filter fun p => p.1 ≠ c.sid
+    let alg := cfg.pick (c.alg.getD [])
+    let no := st.nextFlow
+    let info : Info := ⟨c.sid, c.cwnd, c.mss, c.srcIp, c.srcPort, c.dstIp, c.dstPort⟩
+    match runUser cfg addr c.sid no (pol.newFlow alg no info) r.2.1 (evs ++ [.newFlow no alg info c.sid]) with
+    | .panic => .panic
+    | .err => .err
+    | .ok (u, sf, evs) =>
+      .ok (.cont { flows := setAddr st.flows addr ((c.sid, { no := no, user := u }) :: fm), nextFlow := no + 1,
+                   sendFail := sf } evs)
+
+/-- `Msg::Ms` -/
+def stepMs {σ : Type} (cfg : Cfg) (pol : Policy σ) (st : St σ) (addr : Addr) (m : Measure) : Out (StepRes σ) :=
+  match st.flows.lookup addr with
+  | none => .ok (.cont st [])
+  | some fm =>
+    match fm.lookup m.sid with
+    | none => .ok (.cont st [])
+    | some f =>
+      if m.numFields = 0 then
+        match runUser cfg addr m.sid f.no (pol.onClose f.user) st.sendFail [.closed f.no] with
+        | .panic => .panic
+        | .err => .err
+        | .ok (_, sf, evs) =>
+          let fm' := fm.filter fun p => p.1 ≠ m.sid
+          .ok (.cont { st with flows := setAddr st.flows addr fm', sendFail := sf } (evs ++ [.dropped f.no]))
+      else
+        match runUser cfg addr m.sid f.no (pol.onReport f.user m.sid m.uid m.fields) st.sendFail
+            [.report f.no m.sid m.uid m.fields] with
+        | .panic => .panic
+        | .err => .err
+        | .ok (u, sf, evs) =>
+          let fm' := (m.sid, { f with user := u }) :: fm.filter fun p => p.1 ≠ m.sid
+          .ok (.cont { st with flows := setAddr st.flows addr fm', sendFail := sf } evs)
+
 /-- one iteration of the `while let` body for a yielded `(msg, addr)` -/
 def step {σ : Type} (cfg : Cfg) (pol : Policy σ) (st : St σ) (addr : Addr) (msg : Msg) : Out (StepRes σ) :=
   match msg with
-  | .rdy _ =>
-    let old := (st.flows.lookup addr).getD []
-    let evs := dropAll old
-    let flows := (addr, []) :: st.flows.filter (fun p => p.1 ≠ addr)
-    let (ok, sf, evs) := sendInstalls addr cfg.progs st.sendFail evs
-    let st' := { st with flows := flows, sendFail := sf }
-    .ok (if ok then .cont st' evs else .fail st' evs)
-  | .cr c =>
-    let known := (st.flows.lookup addr).isSome
-    let fm := (st.flows.lookup addr).getD []
-    let (ok, sf, evs) := if known then (true, st.sendFail, []) else sendInstalls addr cfg.progs st.sendFail []
-    if !ok then
-      .ok (.fail { st with flows := (addr, fm) :: st.flows.filter (fun p => p.1 ≠ addr), sendFail := sf } evs)
-    else
-      let evs := evs ++ dropAll (fm.filter fun p => p.1 = c.sid)
-      let fm := fm.filter fun p => p.1 ≠ c.sid
-      let alg := cfg.pick (c.alg.getD [])
-      let no := st.nextFlow
-      let info : Info := ⟨c.sid, c.cwnd, c.mss, c.srcIp, c.srcPort, c.dstIp, c.dstPort⟩
-      let evs := evs ++ [.newFlow no alg info c.sid]
-      match runUser cfg addr c.sid no (pol.newFlow alg no info) sf evs with
-      | .panic => .panic
-      | .err => .err
-      | .ok (u, sf, evs) =>
-        let fm := (c.sid, { no := no, user := u }) :: fm
-        .ok (.cont { flows := (addr, fm) :: st.flows.filter (fun p => p.1 ≠ addr), nextFlow := no + 1,
-                     sendFail := sf } evs)
-  | .ms m =>
-    match st.flows.lookup addr with
-    | none => .ok (.cont st [])
-    | some fm =>
-      match fm.lookup m.sid with
-      | none => .ok (.cont st [])
-      | some f =>
-        if m.numFields = 0 then
-          match runUser cfg addr m.sid f.no (pol.onClose f.user) st.sendFail [.closed f.no] with
-          | .panic => .panic
-          | .err => .err
-          | .ok (_, sf, evs) =>
-            let fm := fm.filter fun p => p.1 ≠ m.sid
-            .ok (.cont { st with flows := (addr, fm) :: st.flows.filter (fun p => p.1 ≠ addr), sendFail := sf }
-                  (evs ++ [.dropped f.no]))
-        else
-          match runUser cfg addr m.sid f.no (pol.onReport f.user m.sid m.uid m.fields) st.sendFail
-              [.report f.no m.sid m.uid m.fields] with
-          | .panic => .panic
-          | .err => .err
-          | .ok (u, sf, evs) =>
-            let fm := (m.sid, { f with user := u }) :: fm.filter fun p => p.1 ≠ m.sid
-            .ok (.cont { st with flows := (addr, fm) :: st.flows.filter (fun p => p.1 ≠ addr), sendFail := sf } evs)
+  | .rdy _ => .ok (stepRdy cfg st addr)
+  | .cr c => stepCr cfg pol st addr c
+  | .ms m => stepMs cfg pol st addr m
   | .other _ => .ok (.cont st [])
 
 /-- the last `SF k` among the script items `recv` passed over, if any -/
